@@ -173,6 +173,14 @@ def u32_instrs():
         I[f"u32shr.{b}"] = lambda c, s, v, b=b: dict(out=[("int", v[0] / 2**b)], consumed=1, pre=u32pre(v, 1))
         I[f"u32rotl.{b}"] = lambda c, s, v, b=b: dict(out=[("int", rotl32(v[0], b))], consumed=1, pre=u32pre(v, 1))
         I[f"u32rotr.{b}"] = lambda c, s, v, b=b: dict(out=[("int", rotl32(v[0], 32 - b))], consumed=1, pre=u32pre(v, 1))
+    I["u32popcnt"] = lambda c, s, v: dict(out=[("int", popcnt32(v[0]))], consumed=1, pre=u32pre(v, 1))
+    # results computed with the help of prover-supplied advice (C09): whatever the host answers, a
+    # completed execution must hold the mathematical result
+    I["u32clz"] = lambda c, s, v: dict(out=[("int", clz32(v[0]))], consumed=1, pre=u32pre(v, 1), advice=True)
+    I["u32ctz"] = lambda c, s, v: dict(out=[("int", ctz32(v[0]))], consumed=1, pre=u32pre(v, 1), advice=True)
+    I["u32clo"] = lambda c, s, v: dict(out=[("int", clo32(v[0]))], consumed=1, pre=u32pre(v, 1), advice=True)
+    I["u32cto"] = lambda c, s, v: dict(out=[("int", cto32(v[0]))], consumed=1, pre=u32pre(v, 1), advice=True)
+    I["ilog2"] = lambda c, s, v: dict(out=[("int", ilog2_64(v[0]))], consumed=1, fail=v[0] == 0, advice=True)
     I["u32lt"] = lambda c, s, v: dict(out=[b2i(v[1] < v[0])], consumed=2, pre=u32pre(v, 2))
     I["u32lte"] = lambda c, s, v: dict(out=[b2i(v[1] <= v[0])], consumed=2, pre=u32pre(v, 2))
     I["u32gt"] = lambda c, s, v: dict(out=[b2i(v[1] > v[0])], consumed=2, pre=u32pre(v, 2))
